@@ -16,6 +16,11 @@ from collections import deque
 
 
 def _loop(conn, f):
+    try:
+        import faulthandler
+        faulthandler.enable()       # a crash inside the solver library leaves the Python stack on stderr
+    except Exception:
+        pass
     while True:
         try:
             msg = conn.recv()
